@@ -1,6 +1,7 @@
 import Pike.Driver.Fresh
 import Pike.Driver.Disp
 import Pike.Driver.Key
+import Pike.Driver.Loc
 open Pike.Driver
 
 structure St where
@@ -9,6 +10,7 @@ structure St where
 def judgeLine (st : St) (line : String) : St × String :=
   match line.splitOn "\t" with
   | "fresh" :: rest => (st, judgeFresh rest)
+  | "loc" :: rest => (st, judgeLoc rest)
   | "key" :: rest => (st, judgeKey rest)
   | "disp" :: rest => let (d, v) := judgeDisp st.disp rest; ({ st with disp := d }, v)
   | s :: _ => (st, s!"BADLINE unknown suite {s}")
